@@ -1,5 +1,9 @@
 ---------------------------- MODULE MCTransEval ----------------------------
 EXTENDS TransEval
 TEQuick == {<<257, 8>>, <<257, 16>>, <<257, 64>>, <<40961, 32>>, <<40961, 128>>, <<193, 16>>}
-TEThorough == TEQuick \cup {<<257, 32>>, <<257, 128>>, <<40961, 8>>, <<40961, 64>>, <<40961, 256>>, <<40961, 1024>>, <<97, 8>>, <<97, 16>>, <<193, 32>>}
+\* (<<257, 128>> is NOT a case: the constraint evaluation domain 2L = 256 would be the whole multiplicative
+\*  group of F_257, so its coset contains the trace domain and the divisor vanishes on evaluation points)
+TEThorough == TEQuick \cup {<<257, 32>>, <<40961, 8>>, <<40961, 64>>, <<40961, 256>>, <<40961, 1024>>, <<97, 8>>, <<97, 16>>, <<193, 32>>}
+\* the evaluation coset must be disjoint from the trace domain: its subgroup must be a proper subgroup
+ASSUME \A pl \in TEThorough : 2 * pl[2] < pl[1] - 1
 =============================================================================
